@@ -157,6 +157,8 @@ pub struct Meta {
     pub assumptions: &'static [&'static str],
     /// profiles to run: "rel" always; add "dbg" for panic/overflow-sensitive properties
     pub dbg: bool,
+    /// also run in a build of the crate with the `simd` feature (separate target dir)
+    pub simd: bool,
     pub exhaustive: Option<&'static str>,
 }
 
